@@ -106,6 +106,7 @@ def pos_jobs(ctx, nq, nt, moves, checked, lgq, lgt, families=True):
     jobs = [dict(sub=["positions", q(ctx, nq, nt), moves, checked, q(ctx, lgq, lgt)], shards=16, timeout=3000)]
     if families:
         jobs.append(dict(sub=["epfamily", q(ctx, 40, 1)], shards=q(ctx, 1, 8), timeout=3000))
+        jobs.append(dict(sub=["pinfamily", q(ctx, 64, 2)], shards=16, timeout=3000))
         if ctx.tier == "thorough":
             jobs.append(dict(sub=["castlefamily"], timeout=3000))
     return jobs
@@ -116,7 +117,7 @@ PROPS["C01"] = dict(
     relevant=r"legal-moves|len/size_hint|model:len|is_legal|LG|accept exactly legal|position-rejected|harness-crash",
     rule=POS_RULE + "; per position: legals() as a sorted set and its len/size_hint/is_empty against Rules.legal_moves, is_legal on random / near-miss / "
          "legal triples, and on every 40th position the full set {m | is_legal m} over all 20480 triples; systematic en-passant family "
-         "(own king x capturer x double-stepped pawn x one enemy slider; quick: 1/40 sample, thorough: all) and castling family (thorough)",
+         "(own king x capturer x double-stepped pawn x one enemy slider; quick: 1/40 sample, thorough: all), pin family (own king x 8 directions x distances x pinned piece type x pinner type, + a random extra enemy man; quick: 16 random 1/64 samples, thorough: 16 x 1/2) and castling family (thorough)",
     trusted_base=CORE_TRUST,
     open=["C01_movegen_exact (model legals = Rules.legal_moves for every reachable board) is NOT proved in Coq; it is decided on every generated "
           "position by the correspondence impl = model and the spec monitor impl = Rules"],
@@ -131,28 +132,28 @@ PROPS["C02"] = dict(
     open=["C02_apply_exact (abs (apply b m) = Rules.make (abs b) m) is NOT proved in Coq; decided on every generated (position, legal move)"],
 )
 PROPS["C03"] = dict(
-    jobs=lambda ctx: pos_jobs(ctx, 500, 20000, 1, 0, 0, 0, families=False),
+    jobs=lambda ctx: pos_jobs(ctx, 500, 20000, 1, 0, 0, 0, families=False) + [dict(sub=["checkfamily", q(ctx, 3000, 16), q(ctx, 16, 1)], shards=16, timeout=3000)],
     relevant=r"in_check|state|indistinguishable|pinned|checkers|position-rejected|harness-crash",
     rule=POS_RULE + "; per position in_check() and state() against Rules.in_check / classify, the incrementally maintained pinned/checkers against the "
          "from-scratch ones, and {legal moves, check, hash, text, Debug rendering, ==} of the moved board against to_string().parse(); per legal move "
-         "the successor's derived state against from-scratch",
+         "the successor's derived state against from-scratch; check-giving families: en-passant captures with the enemy king on every square and an own slider behind (direct + discovered checks), promotions (incl. knight, capturing) with the enemy king on every square, castling with the enemy king on the rook's arrival file, mates/stalemates delivered at and beyond the 100-half-move boundary",
     trusted_base=CORE_TRUST,
     open=["C03_fresh (a moved board equals the re-parsed one as a record) is NOT proved in Coq; decided on every generated position and successor"],
 )
 PROPS["C04"] = dict(
     tables=["zobrist"],
-    jobs=lambda ctx: [dict(sub=["zobrist"])] + pos_jobs(ctx, 500, 20000, 1, 0, 0, 0, families=False),
+    jobs=lambda ctx: [dict(sub=["zobrist"]), dict(sub=["builder", q(ctx, 3000, 200000)], shards=q(ctx, 1, 8))] + pos_jobs(ctx, 500, 20000, 1, 0, 0, 0, families=False),
     relevant=r"hash|zobrist|position-rejected|harness-crash",
     rule="all 794 keys through the four public accessors against the regenerated table; " + POS_RULE + "; per position and per successor of every "
          "legal move the implementation's zobrist() and piece hash against the hash of the same position built from scratch by the model parser "
-         "(so boards with equal text have equal hash whatever move order produced them)",
+         "(so boards with equal text have equal hash whatever move order produced them); builder sequences incl. rejected place() calls: built hash against the from-scratch hash",
     trusted_base=CORE_TRUST + ["translator for zobrist.rs, validated through zobrist()/castle_rights_zobrist()/en_passant_zobrist()/turn_zobrist()"],
     open=["C04_incremental_statement (piece hash maintained by apply = from-scratch hash) is NOT proved in Coq; decided on every generated successor"],
 )
 PROPS["C05"] = dict(
     jobs=lambda ctx: pos_jobs(ctx, 1300, 60000, 0, 0, 0, 0, families=False) + [dict(sub=["fen", q(ctx, 4000, 200000), q(ctx, 1, 4)], shards=q(ctx, 2, 16)),
                                                                               dict(sub=["builder", q(ctx, 3000, 200000)], shards=q(ctx, 1, 8))],
-    relevant=r"fen-writer|indistinguishable|model:result|builder = parser|build result|place flags|position-rejected|harness-crash",
+    relevant=r"fen-writer|indistinguishable|model:result|builder = parser|builder hash|builder piece-hash|builder pins|build result|place flags|position-rejected|harness-crash",
     rule=POS_RULE + "; per board: to_string() byte for byte against the writer model, to_string().parse() equal in legal moves/check/hash/text/Debug/==; "
          "the parser on writer output, structured random FEN text, every single-byte edit of seed FENs and random bytes; builder sequences compared with "
          "the parser on the same position (all fields incl. hash and derived state)",
@@ -179,4 +180,36 @@ PROPS["C17"] = dict(
          "Board::standard() with move_mut and judged legal by the extracted Rules spec; node count and depth compared with the in-kernel sweep",
     trusted_base=["translator for lichess_book.rs (declared BOOK_SIZE checked against the literals), validated by the full traversal through the public iterator",
                   "model/Book.v transcribes BookMovesIter::next incl. checked_sub; legality by spec/Rules.v"],
+)
+
+SEARCH_TRUST = CORE_TRUST + ["model/Search.v transcribes Engine::search / search_with / alphabeta / eval (positional = false, the shipped default) with the timeout as "
+                            "'first expiry at the k-th poll' threaded in the code's poll order; DurationTimeout / the wall clock is replaced by a counting Timeout "
+                            "(a public trait implemented by the harness); log formatting not modelled"]
+PROPS["C11"] = dict(
+    jobs=lambda ctx: [dict(sub=["search", q(ctx, 25, 400), q(ctx, 500, 3000)], shards=16, timeout=3000)],
+    relevant=r"returned move is legal|no legal move|move returned when|never panics|model:move|model:score|model:max_depth|fuel|position-rejected|harness-crash",
+    rule="roots = 16 mate-in-one positions + the 35-position corpus (incl. roots with no legal move, stalemate, one legal move, 100-ply clock) + seeded generated "
+         "positions; for every root the timeout expires at poll k for k = 0..5, a geometric ladder up to 500 (quick) / 3000 (thorough) and random k; terminal "
+         "roots additionally at k = 65535, 65536, 65537, 70000; (move, score, max_depth) compared with the poll-exact model, the returned move checked against "
+         "Rules.legal_moves; checked (overflow/debug-assert) build",
+    trusted_base=SEARCH_TRUST,
+    open=["C11_legal_statement, C11_none_statement, termination of the model's fuel are NOT proved in Coq; decided per run"],
+)
+PROPS["C12"] = dict(
+    jobs=lambda ctx: [dict(sub=["search", q(ctx, 25, 400), q(ctx, 500, 3000)], shards=16, timeout=3000)],
+    relevant=r"mate-in-one|mating move|never panics|model:move|model:score|fuel|position-rejected|harness-crash",
+    rule="same roots and timeouts as C11; the set of mating moves is enumerated by the rules spec (legal move whose successor is checkmate); whenever the model says "
+         "the first pass completed and a mate in one exists the returned move must be a mating move with the mate-in-one score of the mover; a mate-in-one score is "
+         "only accepted with a mating move",
+    trusted_base=SEARCH_TRUST,
+    open=["C12_honest_statement / C12_finds are NOT proved in Coq over the search model; decided per run"],
+)
+PROPS["C13"] = dict(
+    jobs=lambda ctx: [dict(sub=["mirror", q(ctx, 40, 600), q(ctx, 1500, 6000)], shards=16, timeout=3000)],
+    relevant=r"mirror|negated|never panics|position-rejected|harness-crash",
+    rule="generated positions without a promotion move at the root (and half-move clock < 90), empty repetition history, default Engine; the position and its colour "
+         "mirror (built by the harness, checked equal to Rules.mirror) are searched under the same ladder of counting timeouts; for every depth both complete the "
+         "reported scores must be negations of each other",
+    trusted_base=SEARCH_TRUST,
+    open=["C13_mirror_statement (game tree of mirror b = negated game tree of b up to child order) is NOT proved in Coq; decided per run on mirrored pairs"],
 )
